@@ -2,6 +2,7 @@ package main
 
 import (
 	"fmt"
+	"go/types"
 	"sort"
 	"strings"
 
@@ -76,8 +77,8 @@ func runC06(c *Check) {
 			}
 			seenGeneric[gn] = true
 		}
-		g := BuildECFG(p, fn, ExpandOpts{MaxDepth: 0})
-		for _, n := range g.Select(func(n *Node) bool { _, ok := isAtomicMutatorOn(n, "lastHeight"); return ok }) {
+		g := BuildECFG(p, fn, ExpandOpts{MaxDepth: 2})
+		for _, n := range g.Select(func(n *Node) bool { _, ok := isAtomicMutatorOn(n, "lastHeight"); return ok && n.Ctx.Depth == 0 }) {
 			c.NoteGraph(g)
 			nW++
 			m, _ := isAtomicMutatorOn(n, "lastHeight")
@@ -145,7 +146,9 @@ func runC06(c *Check) {
 	c.MinInstances("C06-R1", 2)
 
 	// ---- R2a: who calls the setter
-	setter := func(n *Node) bool { return genericName(CallName(n)) == "(*"+rootPath+"/block.pendingBase[_]).setLastSubmittedHeight" }
+	setter := func(n *Node) bool {
+		return genericName(CallName(n)) == "(*"+rootPath+"/block.pendingBase[_]).setLastSubmittedHeight"
+	}
 	loops := []string{"HeaderSubmissionLoop", "DataSubmissionLoop", "AggregationLoop", "SyncLoop", "RetrieveLoop", "DAIncluderLoop", "HeaderStoreRetrieveLoop", "DataStoreRetrieveLoop"}
 	coveredSetters := map[ssa.Instruction]bool{}
 	for _, l := range loops {
@@ -229,13 +232,30 @@ func runC06(c *Check) {
 		sh := fnShort(sub)
 		isSubmit := IsCall(typesF("SubmitWithHelpers"))
 		submitNodes := g.Select(isSubmit)
+		// parameters by type, not by position: the post-acceptance callback is the function-typed
+		// parameter without results, the items are the slice parameter
+		var postParam, itemsParam *ssa.Parameter
+		for _, prm := range sub.Params {
+			switch t := prm.Type().Underlying().(type) {
+			case *types.Signature:
+				if t.Results().Len() == 0 {
+					postParam = prm
+				}
+			case *types.Slice:
+				itemsParam = prm
+			}
+		}
+		if postParam == nil || itemsParam == nil {
+			c.Unk("C06-R2", sh+" ⟂ parameters", fn, "", "anchor lost: the submitter has no result-less callback parameter or no slice parameter")
+			continue
+		}
 		post := g.Select(func(n *Node) bool {
 			cc := CallCommonOf(n)
 			if cc == nil || n.Ctx.Depth != 0 {
 				return false
 			}
 			pv, ok := cc.Value.(*ssa.Parameter)
-			return ok && len(sub.Params) > 4 && pv == sub.Params[4]
+			return ok && pv == postParam
 		})
 		if len(submitNodes) != 1 || len(post) == 0 {
 			c.Unk("C06-R2", sh+" ⟂ postSubmit", fn, "", fmt.Sprintf("anchor lost: %d SubmitWithHelpers calls, %d calls of the post-acceptance parameter", len(submitNodes), len(post)))
@@ -262,7 +282,7 @@ func runC06(c *Check) {
 		if okSlice {
 			base = arg.Args[0]
 		}
-		itemsName := sub.Params[2].Name()
+		itemsName := itemsParam.Name()
 		okBase := false
 		{
 			hasItems, hasAdvance, other := false, false, false
@@ -948,7 +968,10 @@ func runC07(c *Check) {
 		isMeta := func(n *Node) bool {
 			return CallName(n) == storeM("SetMetadata") && termIsConstString(ArgTerm(n, 1), daKey)
 		}
-		cas := func(n *Node) bool { m, ok := isAtomicMutatorOn(n, "daIncludedHeight"); return ok && m == "CompareAndSwap" }
+		cas := func(n *Node) bool {
+			m, ok := isAtomicMutatorOn(n, "daIncludedHeight")
+			return ok && m == "CompareAndSwap"
+		}
 		if len(finalOK) == 0 || len(metaOK) == 0 {
 			c.Bad("C07-R2", fnShort(incr)+" ⟂ SetFinal<persist<CAS", fn, "", fmt.Sprintf("missing success branches: SetFinal=%d SetMetadata(DAIncludedHeightKey)=%d", len(finalOK), len(metaOK)), nil)
 		} else {
